@@ -28,7 +28,7 @@ from ..image import TypeOfDiskImage, DiskImage
 from ..image_manager import SingleDiskImageManager
 from ..listener import DiskImageCliListener
 from ..catalog import TypeOfData, TypeOfDiskFile, CatalogEntryStatus
-from ..controller import FileSystemController
+from ..controller import FileSystemController, _computeRequiredSlots
 
 
 class DiskImageContentInjector(DiskImageWorker):
@@ -195,8 +195,8 @@ class DiskImageContentInjector(DiskImageWorker):
                     typeOfData=fileMode,
                 )
                 sizeInBytes = len(fileData)
-                fullBlocks, moduloBlocks = len(fileData) // 255, len(fileData) % 255
-                sizeInBlocks = fullBlocks if moduloBlocks == 0 else fullBlocks + 1
+                sizeInSectors, _ = _computeRequiredSlots(max(sizeInBytes, 1), 255)
+                sizeInBlocks, _ = _computeRequiredSlots(sizeInSectors, 8)
                 listener.onEndOfFile(
                     {
                         "status": CatalogEntryStatus.ALIVE.name,
